@@ -1651,7 +1651,11 @@ class ContractionTree:
                 if ind in term:
                     # n.b. leaves don't contribute to size, flops or write
                     # simply recalculate all information, incl. preprocessing
+                    # (right now, since if ``ind`` is private to this input
+                    # nothing above it is recomputed, and any preprocessing
+                    # the input still needs would never be registered again)
                     tree._remove_node(node)
+                    tree.get_legs(node)
                     tree.sliced_inputs = tree.sliced_inputs | frozenset([i])
             else:
                 involved = tree.get_involved(node)
